@@ -133,10 +133,26 @@ theorem old_schema_recommit (ctx : Ctx κ) (g : Good ctx) (ch : Choice) (t : Nod
       ⟨nm, digestAs ctx ch nm t, t.isDir⟩ s strat2 rfl hk hc
     exact ⟨_, s', h, hc', hle', hh', deref_wsAfter hp hh' strat2⟩
 
-/-- … and of an *edited* plain tree `t2`, provided it is compatible (same kind entry by entry)
-with the old manifests: the digest recorded is `treeDigest ctx nm t2` — this is C16 (a), stated
-here for the old-schema cache. -/
+/-- … and of an arbitrarily *edited* plain tree `t2` of the same top-level kind (entries added,
+removed, changed, even swapped between file and directory): the digest recorded is
+`treeDigest ctx nm t2`.  No compatibility hypothesis is needed: the manifests of `t1` are present
+and readable, and an old child is reused only where the kinds agree. -/
 theorem old_schema_recommit_edited (ctx : Ctx κ) (g : Good ctx) (ch : Choice) (t t2 : Node κ)
+    (nm : Bytes) (hs : t.sorted = true) (hn : NamesOK ctx t)
+    (hp2 : t2.plain = true) (hn2 : NamesOK ctx t2) (hd : t.isDir = t2.isDir)
+    (s : Store κ) (hc : Consistent ctx s) (hle : Store.le ctx (storeAs ctx ch t nm).2 s)
+    (strat : Strat) :
+    ∃ w s', commitNode ctx strat t2 ⟨nm, (storeAs ctx ch t nm).1, t.isDir⟩ s =
+        .ok (w, ⟨nm, treeDigest ctx nm t2, t.isDir⟩, s') ∧
+      Consistent ctx s' ∧ Store.le ctx s s' ∧ HoldsNode ctx s' newChoice nm t2 ∧
+      deref ctx s' w = t2 := by
+  have hh := HoldsNode.mono hle t ch nm (storeAs_holds g ch t nm).2
+  obtain ⟨s', h, hc', hle', hh', hdd⟩ :=
+    recommit_after_edit ctx g t t2 ch nm hs hn hp2 hn2 hd s hc hh strat
+  exact ⟨_, s', h, hc', hle', hh', hdd⟩
+
+/-- the same with an explicit (now weaker) compatibility hypothesis on an arbitrary store -/
+theorem old_schema_recommit_compat (ctx : Ctx κ) (g : Good ctx) (ch : Choice) (t t2 : Node κ)
     (nm : Bytes) (hp2 : t2.plain = true) (hn2 : NamesOK ctx t2) (hd : t2.isDir = t.isDir)
     (s : Store κ) (hc : Consistent ctx s)
     (hk : CompatNode ctx s t2 (storeAs ctx ch t nm).1) (strat : Strat) :
@@ -315,6 +331,7 @@ end Example
 #print axioms old_schema_checkout_same
 #print axioms old_schema_recommit
 #print axioms old_schema_recommit_edited
+#print axioms old_schema_recommit_compat
 #print axioms readManifest_schema_irrelevant
 #print axioms alookup_wsAfterList
 #print axioms mem_wsAfterList
